@@ -569,6 +569,10 @@ class FaultRun(object):
             nat2 = dump.natural(w, raw2)
             ok = (r2.status == self.twin_status and dump.natural_core(
                 nat2, False) == dump.natural_core(self.twin_nat, False))
+            if winners:
+                # the race winner's rows make this a different world from
+                # the dry run's: only require that the service still answers
+                ok = r2.status < 500
             # auxiliary rows recorded by the failed attempt may change
             # nothing but ids; anything else is poisoning
             if not ok:
